@@ -7,7 +7,17 @@ import nego_common as nc, vlib
 VERSION_REASONS = ("version-not-advertised", "downgrade-sentinel", "supported-versions-below-1.3")
 
 def run(ctx):
-    scns, events, rej, unadv, mc = nc.run_nego(ctx, "c13", shards=8)
+    def with_golang(scns):
+        # the default Go fingerprint (no preset applied: the Config's own MinVersion/MaxVersion, here unset, decide what
+        # the client accepts) against the same server behaviours
+        out = list(scns)
+        base = dict(scns[0])
+        for v in (769, 770, 771, 772):
+            for lo in (False, True):
+                for cn in (0, 1, 2):
+                    out.append(dict(base, id="Golang", ver=v, legacy_only=lo, canary=cn, suite=0, group=0, cert="ecdsa", resume=False, mode="adversarial"))
+        return out
+    scns, events, rej, unadv, mc = nc.run_nego(ctx, "c13", shards=8, subset=with_golang)
     for r in rej:
         d = nc.sig_detail(r["detail"])
         if r["kind"] in ("order", "timeout"):
